@@ -147,6 +147,32 @@ pub fn run(ctx: &mut RunCtx) -> Result<(), Violation> {
             reject(ctx, &m0, "degenerate_proof_with_zero_public_inputs", &mut s)?;
         }
     }
+    // ---- strategy 7: forgeries solved for from public data (re-balanced opening witnesses)
+    {
+        let pp_bytes = deploy::pp_with_degree(sc.degree).to_var_bytes();
+        if let Some(x1) = crate::c06::srs_point(&pp_bytes, 1) {
+            for k in 0..2 {
+                let c = if k == 0 { BlsScalar::one() } else { f.scalar() };
+                if let Some(m) = crate::channel::rebalance_openings(&honest[k % 2], &dep.node.rm, &x1, c) {
+                    // harness self-check: the forgery balances the equation for the original u
+                    {
+                        use crate::rm_verify::{challenges, verify_parsed_with_u, RefProof, Version};
+                        let p0 = RefProof::parse(&honest[k % 2].proof).expect("honest proof parses");
+                        let u0 = challenges(&dep.node.rm, &p0, &honest[k % 2].pi, Version::V3).u;
+                        let p1 = RefProof::parse(&m.proof).expect("forged proof parses");
+                        assert!(
+                            verify_parsed_with_u(&dep.node.rm, &p1, &m.pi, Version::V3, Some(u0)).accepted(),
+                            "harness: the re-balanced forgery does not balance for the original u"
+                        );
+                    }
+                    ctx.st.fault("byzantine.rebalanced_opening_witnesses");
+                    ctx.st.eval(sig ^ digest(&m.proof) ^ 0x7, true);
+                    ctx.note("fault", J::s("rebalanced opening witnesses"));
+                    reject(ctx, &m, "rebalanced_opening_witnesses", &mut s)?;
+                }
+            }
+        }
+    }
     if !honest[0].pi.is_empty() {
         for cf in [ChanFault::PiAddOne(f.usize(64)), ChanFault::PiReplace(f.usize(64), f.scalar()), ChanFault::PiAllZero] {
             let m = apply(&honest[0], &cf, None, &mut f);
